@@ -106,6 +106,7 @@ class E2Harness:
     native = None          # (crate key, native replay harness name)
     max_paths = 400000
     max_visits = 64
+    bound_is_hang = False
 
     def __init__(self):
         self.violations = []
@@ -168,6 +169,13 @@ class E2Harness:
 
         def on_path(out, ex):
             if out[0] == 'bound':
+                if self.bound_is_hang and 'visited more than' in out[1]:
+                    # the input has at most n bytes and every loop of the code under check must consume input: a loop head
+                    # visited more than max_visits (>> n) times is reported as non-termination and replayed natively with a time limit
+                    self.cover('bound')
+                    self.require(ex, False, 'does not terminate: ' + out[1])
+                    self.hang = True
+                    return
                 self.inconclusive.append('bound exceeded: ' + out[1])
                 return
             try:
@@ -191,7 +199,7 @@ class E2Harness:
             inconclusive=sorted(set(self.inconclusive))[:10], covers=self.covers,
             stats=dict(ex.stats, wall_s=round(time.time() - t0, 2)),
             functions_executed=sorted(ex.functions_executed), models_used=sorted(ex.models_used),
-            samples=self.samples[:5],
+            samples=self.samples[:5], hang=getattr(self, 'hang', False),
         )
 
 
